@@ -161,43 +161,59 @@ class ModuleInfo:
         return "<module %s>" % self.modname
 
 
+def read_sources(root: str) -> Dict[str, str]:
+    """All library sources of the repository: sweetpea/**/*.py except tests."""
+    base = os.path.join(root, PKG)
+    if not os.path.isdir(base):
+        raise AnalysisError("repository package %s not found" % base)
+    out: Dict[str, str] = {}
+    for dirpath, dirnames, filenames in os.walk(base):
+        dirnames[:] = sorted(d for d in dirnames if d not in ("tests", "__pycache__"))
+        for fn in sorted(filenames):
+            if not fn.endswith(".py"):
+                continue
+            path = os.path.join(dirpath, fn)
+            rel = os.path.relpath(path, root)
+            # sweetpea/_internal/core/tests.py is a test module, not library code
+            if rel.endswith(os.path.join("core", "tests.py")):
+                continue
+            out[rel] = open(path, encoding="utf-8").read()
+    return out
+
+
 class Repo:
-    def __init__(self, root: str = REPO):
+    def __init__(self, root: str = REPO, sources: Optional[Dict[str, str]] = None):
+        """sources: optional {relative path: text} overriding / replacing what is on disk (used by the
+        checker self-validation to analyse edited variants without touching any file)."""
         self.root = root
         self.modules: Dict[str, ModuleInfo] = {}       # by dotted module name
         self.by_short: Dict[str, List[ModuleInfo]] = {}
         self.all_functions: List[FunctionInfo] = []
         self.consulted: Dict[str, str] = {}
-        self._load()
+        self.sources: Dict[str, str] = {}
+        self._load(sources)
         self._link()
 
     # ---------------------------------------------------------------- loading
-    def _load(self):
-        base = os.path.join(self.root, PKG)
-        if not os.path.isdir(base):
-            raise AnalysisError("repository package %s not found" % base)
-        for dirpath, dirnames, filenames in os.walk(base):
-            dirnames[:] = sorted(d for d in dirnames if d not in ("tests", "__pycache__"))
-            for fn in sorted(filenames):
-                if not fn.endswith(".py"):
-                    continue
-                # sweetpea/_internal/core/tests.py is a test module, not library code
-                path = os.path.join(dirpath, fn)
-                rel = os.path.relpath(path, self.root)
-                if rel.endswith(os.path.join("core", "tests.py")):
-                    continue
-                modname = rel[:-3].replace(os.sep, ".")
-                if modname.endswith(".__init__"):
-                    modname = modname[: -len(".__init__")]
-                try:
-                    src = open(path, encoding="utf-8").read()
-                    m = ModuleInfo(path, rel, modname, src)
-                except SyntaxError as e:
-                    raise AnalysisError("cannot parse %s: %s" % (rel, e))
-                if fn == "__init__.py":
-                    m.short = modname
-                self.modules[modname] = m
-                self.by_short.setdefault(m.short, []).append(m)
+    def _load(self, sources: Optional[Dict[str, str]] = None):
+        if sources is None:
+            sources = read_sources(self.root)
+        self.sources = sources
+        for rel in sorted(sources):
+            src = sources[rel]
+            modname = rel[:-3].replace(os.sep, ".")
+            is_init = modname.endswith(".__init__")
+            if is_init:
+                modname = modname[: -len(".__init__")]
+            path = os.path.join(self.root, rel)
+            try:
+                m = ModuleInfo(path, rel, modname, src)
+            except SyntaxError as e:
+                raise AnalysisError("cannot parse %s: %s" % (rel, e))
+            if is_init:
+                m.short = modname
+            self.modules[modname] = m
+            self.by_short.setdefault(m.short, []).append(m)
         for m in self.modules.values():
             self._index_module(m)
 
